@@ -367,7 +367,7 @@ def _td7(ck, repo, nf):
         want = sorted(["clip <- {N}", "concat(axis=-1) <- {N}", "critic_target <- {N}", "fixed_embedding_target <- {N}", "fixed_embedding_target <- {N}"])
         ck.ob("R2-bootstrap-kind", q, f"{tag}:census", cen == want, f"B = {B.canon()[:150]}", "" if cen == want else f"bootstrap calls {cen} differ from documented {want}", where)
         bm = nf.meta.get(B.single_atom() or "")
-        okclip = bool(bm) and bm["fn"] == "clip" and [a.canon() for a in bm["args"][1:]] == ["q_min", "q_max"]
+        okclip = bool(bm) and bm["fn"] == "clip" and len(bm["args"]) == 3 and bm["args"][2].canon() == "q_max" and "q_min" in [a.canon() for a in bm["args"][:2]]
         ck.ob("R2-bootstrap-kind", q, f"{tag}:value-clip", okclip, "clip(Q', q_min, q_max)", "" if okclip else "documented bootstrap is the target value clipped to [q_min, q_max] with unit coefficient", where)
     # the returned target equals the regression target
     rets = [n for n in ast.walk(fn) if isinstance(n, ast.Return)]
